@@ -347,6 +347,18 @@ pub fn run(tier: &str) -> Report {
                 extra.push(("timeline", t(Kind::Ecl, game), format!("void sub0() {{ }}\nvoid sub1() {{ }}\nscript timeline0 {{ {} }}\n{second}", body.join(" "))));
             }}}
         }
+        // ANM files in which 2..4 entries share one path (the recompile matches them to the image source's entries of that
+        // path in order of appearance): every per-entry choice of {embedded dummy image of its own size / no image} x 2 paths
+        for game in ["th06", "th12"] { for path in ["@R", "same.png"] { for n in 2..=4usize { for imgs in 0..(1u32 << n) {
+            if path.starts_with('@') && imgs != 0 { continue; }   // (virtual paths carry no image)
+            let mut src = String::new();
+            for i in 0..n {
+                let has = imgs >> i & 1 == 1;
+                src += &format!("entry {{\n    path: \"{path}\", has_data: {}, img_width: {}, img_height: {}, img_format: {}, memory_priority: {},\n    sprites: {{ sp{i}: {{id: {}, x: 0.0, y: 0.0, w: {}.0, h: 4.0}} }},\n}}\nscript scr{i} {{ ins_{}(); }}\n",
+                    if has { "\"dummy\"" } else { "false" }, 4 << i, 4 + 4 * i, [1, 3, 5, 7][i], 10 + i, i * 3, 4 + i, if game == "th06" { 15 } else { 1 });
+            }
+            extra.push(("anm-shared-path", t(Kind::Anm, game), src));
+        }}}}
         rep.transitions += extra.len() as u64;
         let results = par_map(&extra, Some(deadline), |_, (_, tool, src)| drive::compile(*tool, src.as_bytes(), &CompileOpts::default()));
         let mut dedupe = BTreeSet::new();
@@ -421,7 +433,7 @@ pub fn replay(detail: &serde_json::Value) -> i32 {
     let extra_tool = |name: &str, src: &str| -> Option<Tool> {
         let g = |s: &str| s.parse::<Game>().unwrap();
         Some(match name { "mission095" => Tool::new(Kind::Mission, g("th095")), "mission125" => Tool::new(Kind::Mission, g("th125")),
-            "end" => Tool::new(Kind::End, g(if src.contains("th12") { "th12" } else { "th10" })), "timeline" => Tool::new(Kind::Ecl, g("th06")), _ => return None })
+            "end" => Tool::new(Kind::End, g(if src.contains("th12") { "th12" } else { "th10" })), "timeline" => Tool::new(Kind::Ecl, g("th06")), "anm-shared-path" => Tool::new(Kind::Anm, g("th06")), _ => return None })
     };
     let seed = if let Some(tool) = extra_tool(host_name, detail["source"].as_str().unwrap_or("")) {
         let src = detail["source"].as_str().unwrap_or("").to_string();
